@@ -288,7 +288,8 @@ class InProtocolBase(ProtocolMixin):
 
         try:
             retval = _uuid_deserialize[ser_as](retval)
-        except (ValueError, TypeError, UnicodeDecodeError) as e:
+        except (ValueError, TypeError, AttributeError, UnicodeDecodeError) as e:
+            # AttributeError: uuid.UUID() wants a string
             raise ValidationError(e)
 
         return retval
@@ -357,7 +358,8 @@ class InProtocolBase(ProtocolMixin):
 
         try:
             return D(string)
-        except InvalidOperation as e:
+        except (InvalidOperation, TypeError, ValueError) as e:
+            # the latter two: not a number or text at all (e.g. a list)
             raise ValidationError(string, "%%r: %r" % e)
 
     def decimal_from_bytes(self, cls, string):
